@@ -58,10 +58,15 @@ def active_world():
 
 class World(object):
     def __init__(self, tape, policy=('sticky', 0.2), step_cap=20000, eager_time=False,
-                 start_time=1.7e9, tick=1e-6, prefix='/simfs', with_sched=True):
+                 start_time=1.7e9, tick=1e-6, prefix='/simfs', with_sched=True, fs=None, clock=None):
         self.tape = tape
-        self.clock = SimClock(start_time, tick)
-        self.fs = SimFS(prefix, self.clock)
+        self.clock = clock if clock is not None else SimClock(start_time, tick)
+        if fs is not None:
+            self.fs = fs
+            fs.clock = self.clock
+            fs.frozen = False
+        else:
+            self.fs = SimFS(prefix, self.clock)
         self.sched = Sched(tape, self.clock, policy, step_cap, eager_time) if with_sched else None
         self.fs.sched = self.sched
         self.procs = []
